@@ -475,6 +475,9 @@ def run(ctx):
     P("webvtt.WebVTTWriter._convert_positioning", webvtt_settings, functions=[W._convert_positioning],
       contracts={"pycaption.geometry:Size.__str__": _size_str})
     P("webvtt.WebVTTWriter._convert_positioning/verbatim", webvtt_verbatim, functions=[W._convert_positioning])
+    import props.C07_regions as RG
+    ctx.prove("dfxp.RegionCreator.get_positioning_info+_assign_positioning_data", RG.positioning_info,
+              functions=[RG.RegionCreator.get_positioning_info, RG.DFXPWriter._assign_positioning_data], crosscheck=False)   # (an element is placed by its own nearest layout)
     import props.C01_read as RS
     RS.prove_webvtt_read_skeleton(ctx, clause="layout")      # (reading: the settings of a timing line belong to the cue below it)
     prove_alignment(ctx)
